@@ -101,7 +101,7 @@ Ltac go :=
 
 Ltac unf :=
   unfold exec;
-  unfold arith_prelude, bitwise, read_generic, push_opt, pop_ty, pop_int, pop_long, pop_str,
+  unfold exp_tail, exp_tail_ref, arith_prelude, bitwise, read_generic, push_opt, pop_ty, pop_int, pop_long, pop_str,
     pop_ref, repush, write_var, read_var, seg_set, scope_seg, cur_frame, get_seg;
   unfold bind, pop, type_mismatch, trap, trap_badkw, crashM, ret.
 
